@@ -36,6 +36,14 @@ class Ctx:
         self.base = list(base)
         self.memo = {}
         self.keep = []
+        self.facts = set()           # ids of base constraints: decided True without forking
+        for b in self.base:
+            try:
+                sb = z3.simplify(b)
+                self.facts.add(sb.get_id())
+                self.keep.append(sb)
+            except Exception:
+                pass
 
     # -- branching -------------------------------------------------------------------------------------------------
     def decide(self, cond):
@@ -49,6 +57,8 @@ class Ctx:
         k = c.get_id()
         if k in self.memo:
             return self.memo[k]
+        if k in self.facts:
+            return True
         if self.pos < len(self.decisions):
             taken = self.decisions[self.pos]
             if not isinstance(taken, bool):
@@ -619,7 +629,7 @@ def model_dict(m):
 def check_sat(assertions, timeout_ms=30000, tactic=None):
     """-> (result 'sat'|'unsat'|'unknown', model dict|None, backend, seconds); z3 first, unknown -> cvc5 on the SMT-LIB2 text"""
     t = time.time()
-    s = z3.Solver() if tactic is None else z3.Tactic(tactic).solver()
+    s = z3.Solver() if tactic is None else z3.SolverFor(tactic) if tactic.startswith('QF_') else z3.Tactic(tactic).solver()
     s.set('timeout', timeout_ms)
     s.add(*assertions)
     r = s.check()
